@@ -82,7 +82,8 @@ class PanicGraph:
                 out.append({'kind': 'assert ' + kind, 'where': where, 'sp': sp, 'exp': t.get('exp', False),
                             'key': 'assert %s' % kind, 'ops': t.get('ops', []), 'ltypes': ltypes,
                             'auto': self._const_discharge(mir, kind, t.get('ops', [])) or
-                            self._interval_discharge(mir, kind, t.get('ops', []), ltypes)})
+                            self._interval_discharge(mir, kind, t.get('ops', []), ltypes) or
+                            self._guard_discharge(mir, bi, kind, t.get('ops', []))})
             elif k == 'Call':
                 c = t.get('resolved') or t.get('callee')
                 if not c:
@@ -209,6 +210,129 @@ class PanicGraph:
             res = (min(ps), max(ps))
         if r[0] <= res[0] and res[1] <= r[1]:
             return 'operands in [%d, %d] and [%d, %d]: the result fits %s' % (a[0], a[1], b[0], b[1], ty)
+        return None
+
+    # -- guards that dominate an assert ----------------------------------------------
+    def _succ(self, blk):
+        t = blk['term']
+        out = list(t.get('targets') or [])
+        return [x for x in out if isinstance(x, int)]
+
+    def _dominators(self, mir):
+        n = len(mir['blocks'])
+        preds = {i: set() for i in range(n)}
+        for i, b in enumerate(mir['blocks']):
+            for j in self._succ(b):
+                if 0 <= j < n:
+                    preds[j].add(i)
+        dom = {i: set(range(n)) for i in range(n)}
+        dom[0] = {0}
+        changed = True
+        while changed:
+            changed = False
+            for i in range(1, n):
+                ps = [dom[p] for p in preds[i]]
+                new = ({i} | set.intersection(*ps)) if ps else {i}
+                if new != dom[i]:
+                    dom[i] = new
+                    changed = True
+        return dom, preds
+
+    def _root(self, mir, op, blk_stmts=None, depth=0):
+        """the local an operand is a plain copy of (within single-assignment temporaries)"""
+        if not isinstance(op, str) or depth > 6:
+            return None
+        name = re.sub(r'^(move|copy) ', '', op)
+        if not re.fullmatch(r'_\d+', name):
+            return None
+        defs = [st['rv'] for b in mir['blocks'] for st in b.get('stmts', []) if st.get('lhs') == name and 'rv' in st]
+        calls = [b['term'] for b in mir['blocks'] if b['term'].get('k') == 'Call' and b['term'].get('dest') == name]
+        if len(defs) == 1 and not calls and defs[0].get('k') == 'Use' and \
+                re.match(r'^(move|copy) _\d+$', defs[0].get('a', '')):
+            return self._root(mir, defs[0]['a'], None, depth + 1)
+        return name
+
+    def _assigned_in(self, mir, blocks, local):
+        for i in blocks:
+            b = mir['blocks'][i]
+            for st in b.get('stmts', []):
+                if st.get('lhs') == local:
+                    return True
+            if b['term'].get('k') == 'Call' and b['term'].get('dest') == local:
+                return True
+        return False
+
+    def _upper_guard(self, mir, at_block, local):
+        """the least constant B with a dominating test `local < B` whose true edge dominates
+        `at_block` and after which `local` is not assigned before `at_block`"""
+        dom, preds = self._dominators(mir)
+        best = None
+        for i in dom.get(at_block, ()):
+            b = mir['blocks'][i]
+            t = b['term']
+            if t.get('k') != 'SwitchInt' or t.get('discr_ty') != 'bool' or len(t.get('targets', [])) != 2:
+                continue
+            d = re.sub(r'^(move|copy) ', '', t.get('discr', ''))
+            rv = [st['rv'] for st in b.get('stmts', []) if st.get('lhs') == d and 'rv' in st]
+            if len(rv) != 1 or rv[0].get('k') != 'BinaryOp' or rv[0].get('op') not in ('Lt', 'Le', 'Gt', 'Ge'):
+                continue
+            a_, b_, op = rv[0].get('a'), rv[0].get('b'), rv[0]['op']
+            if op in ('Gt', 'Ge'):
+                a_, b_, op = b_, a_, {'Gt': 'Lt', 'Ge': 'Le'}[op]
+            bound = self._const(b_)
+            if bound is None:
+                # `k < X.len()` where the length is a constant known at the call
+                bl = re.sub(r'^(move|copy) ', '', b_ or '')
+                for bb in mir['blocks']:
+                    tt = bb['term']
+                    if tt.get('k') == 'Call' and tt.get('dest') == bl and (tt.get('callee') or '').endswith('::len') \
+                            and len(tt.get('args', [])) == 1:
+                        # the receiver is an array unsized to a slice: its length is in the type
+                        cur = re.sub(r'^(move|copy) ', '', tt['args'][0])
+                        for _ in range(4):
+                            rvs = [st['rv'] for b2 in mir['blocks'] for st in b2.get('stmts', [])
+                                   if st.get('lhs') == cur and 'rv' in st]
+                            if len(rvs) != 1:
+                                break
+                            m_ = re.search(r'; (\d+)\]', rvs[0].get('from', '') or '')
+                            if rvs[0].get('k') == 'Cast' and 'Unsize' in (rvs[0].get('ck') or '') and m_:
+                                bound = int(m_.group(1))
+                                break
+                            if rvs[0].get('k') in ('Use', 'Cast') and re.match(r'^(move|copy) _\d+$', rvs[0].get('a', '')):
+                                cur = re.sub(r'^(move|copy) ', '', rvs[0]['a'])
+                                continue
+                            break
+            if bound is None or self._root(mir, a_) != local:
+                continue
+            if op == 'Le':
+                bound += 1
+            # values == ['0'] : targets[0] is the false edge, targets[1] the true edge
+            true_t = t['targets'][1] if t.get('values') == ['0'] else None
+            if true_t is None or true_t not in dom.get(at_block, ()):
+                continue
+            # blocks between the true edge and the assert: dominated by true_t and dominating-or-reaching at_block
+            between = [j for j in range(len(mir['blocks'])) if true_t in dom.get(j, ()) and j in dom.get(at_block, ())]
+            if self._assigned_in(mir, [j for j in between if j != at_block], local):
+                continue
+            best = bound if best is None else min(best, bound)
+        return best
+
+    def _guard_discharge(self, mir, bi, kind, ops):
+        if kind == 'BoundsCheck' and len(ops) == 2:
+            ln = self._const(ops[0])
+            r = self._root(mir, ops[1])
+            if ln is not None and r is not None:
+                g = self._upper_guard(mir, bi, r)
+                if g is not None and g <= ln:
+                    return 'the index is below %d by a dominating test and the length is %d' % (g, ln)
+        m = re.fullmatch(r'Overflow\(Add\)', kind)
+        if m and len(ops) == 2:
+            c = self._const(ops[1])
+            r = self._root(mir, ops[0])
+            if c is not None and r is not None and 0 <= c <= 2 ** 16:
+                g = self._upper_guard(mir, bi, r)
+                if g is not None and g + c < 2 ** 31:
+                    return 'the operand is below %d by a dominating test' % g
         return None
 
     def _const_discharge(self, mir, kind, ops):
